@@ -197,7 +197,11 @@ def nested_boxes(levels, corners="++++"):
 
 # Unicode blanks and separators: white space for `char::is_whitespace`, not line breaks for `str::lines`
 UNI_SPACES = "\u2028\u2029\u0085\u000b\u000c\u00a0\u1680\u2000\u2003\u200a\u202f\u205f\u3000"
-SPECIAL_LABEL = ["a\u2028b", "x\u2029y z", "a\u0085b", "a\u000bb", "a\u000cb", "a\u00a0b", "a\u3000b", "a\u2003b", "a\u205fb",
+# labels in scripts with their own rules: right-to-left, combining marks, conjuncts, jamo, emoji sequences, ligatures,
+# characters whose case mapping changes the length
+SCRIPT_LABELS = ["שלום", "שלום עולם", "مرحبا", "سلام", "ܫܠܡܐ", "abc שלום", "ไทย", "สวัสดี", "हिन्दी", "한글", "각",
+                 "👨\u200d👩\u200d👧", "🇩🇪", "ǅ", "ß", "İ", "ﬁ", "Ω", "①", "ἀ", "ᄀ"]
+SPECIAL_LABEL = SCRIPT_LABELS + ["a\u2028b", "x\u2029y z", "a\u0085b", "a\u000bb", "a\u000cb", "a\u00a0b", "a\u3000b", "a\u2003b", "a\u205fb",
                  "é", "ü", "ж", "一", "本語", "á", "a​b", "x️", "\t", "a\tb", "\x01", "￾", "́", "😀", "a&b", "<b>", "'q'"]
 
 
